@@ -34,6 +34,24 @@ is compared with the result of a fresh calculator for that system, polarisation 
 pref (on the prefactors as the pipeline left them), total (sum, re-read, ledger) and uncoupled
 (sum of the separately calculated molecules) are applied to it.
 
+Dipole-scale dimension (all three sections): ALL transition dipoles of the system are multiplied
+by a common factor s from {1, 3, 1e-2, 1e-4} (thorough: also 1e2); s = 1 is the grid described
+above.  `sys`: inside EVERY point every s != 1 is run through the real pipeline for every base
+polarisation setting: cross-scale oracles against s = 1 (clause `scale-s4` per signal type,
+`scale-census`: same pathway types and counts) and the reference oracles pref (prefactors as the
+pipeline made them, which therefore scale as s^4), total (sum, re-read, ledger) and uncoupled
+(monomers with the same scaled dipole) on the scaled system itself; thorough: also rot-pol / rot-dip
+with the generic rotation.  `reuse`: inside EVERY case the history product is repeated with the
+system alphabet built at every s (all systems of a history at the same s; for s != 1 all sequences
+of length 2 in both tiers); every use is compared with fresh calculators at that s, and every
+system of the alphabet at scale s with s^4 x itself at s = 1 (`reuse/scale-s4`,
+`reuse/scale-census`).  A deviation of the api `all` at s != 1 that a fresh calculator used through
+the same api reproduces, while the api agrees with calculate_one_system at s = 1, is reported as
+`reuse/all/pathway-screening-depends-on-dipole-scale` (the relative dipole threshold of
+calculate_all_system was compared with squared dipoles; fixed in /repo).  `lab` (thorough): all
+dipole four-tuples x s.
+A reference oracle that fails only for s != 1 gets the key suffix `/only-scaled-dipoles`.
+
 Clauses and oracles (tolerance class R everywhere: 1e-10 * scale)
   pref      pathway.pref == sign * rho0 * evolution factor * <prod_k e_k . R d_k>_SO(3), the average
             by the 75-point product quadrature of mc/refmodels/iso_average.py (exact for degree 4,
@@ -43,6 +61,9 @@ Clauses and oracles (tolerance class R everywhere: 1e-10 * scale)
   rot-dip   response[R d] == response[d]          REPH, NONR and total; scale = max|signal|
   rot-pol   response[R e] == response[e]
   scale     response[k d] == k^4 response[d]
+  scale-s4  response[s d] == s^4 response[d] for REPH, NONR and total separately, every s of the
+            dipole-scale dimension; scale-census: the generated pathways (types and counts) do not
+            depend on s
   total     total == REPH + NONR (data flags of the TwoDResponse); ledger: REPH / NONR == sum of
             calculate_pathway over the generated pathways of type R / NR
   uncoupled J = 0: response[aggregate] == sum_m response[molecule m built alone, mult 2] with the
@@ -78,6 +99,15 @@ N13, DT13 = 32, 10.0                                     # t1 / t3 axes
 T2AXIS = (0.0, 3, 10.0)                                  # t2 = 0, 10, 20 fs
 PTYPES = ("R1g", "R2g", "R3g", "R4g", "R1f*", "R2f*")
 SCALES = {"quick": [2.0], "thorough": [2.0, 0.5]}
+# dipole-scale dimension: ALL transition dipoles of the system are multiplied by s; s = 1 is the
+# original grid, every other s repeats the oracles on the scaled system and adds the cross-scale
+# oracles (s^4, pathway census).  1e-2 and 1e-4 bring |d|^2 down to 1e-4 .. 1e-8, 1e2 up to 1e4.
+DIPSCALES = {"quick": [1.0, 3.0, 1e-2, 1e-4], "thorough": [1.0, 3.0, 1e-2, 1e-4, 1e2]}
+# the stub section `lab` gets the dimension in thorough only (it has no system; 4x its cost)
+LAB_SCALES = {"quick": [1.0], "thorough": [1.0, 3.0, 1e-2, 1e-4, 1e2]}
+SCALED_ONLY = "/only-scaled-dipoles"
+# rotation clauses on the scaled systems: thorough only, the generic rotation
+ROTS_SCALED = {"quick": [], "thorough": [ISO.GENERIC_ROTATION]}
 POLBASES = {"quick": ["XXYY", "XMDZ"], "thorough": ["XXXX", "XXYY", "XYXY", "XMDZ"]}
 SIDES = {"quick": [(1, 1, 1, 1), (-1, 1, -1, 1), (-1, 1, 1, 1)],
          "thorough": list(itertools.product((1, -1), repeat=4))}
@@ -168,8 +198,8 @@ def eval_lab(case, tier):
                                  DD=numpy.zeros((9, 9, 3)),
                                  rho0=numpy.zeros((9, 9), dtype=complex))
     stub.rho0[0, 0] = STUB_RHO0
-    obs = [0.0, 0.0]                   # digest of the observed prefactors
-    for sides in SIDES[tier]:
+    obs = [0.0, 0.0]                   # digest of the observed prefactors (divided by s^4)
+    for ds, sides in itertools.product(LAB_SCALES[tier], SIDES[tier]):
         trans = _stub_scheme(sides)
         sref = ISO.diagram_sign(sides)
         stag = "".join("L" if s == 1 else "R" for s in sides)
@@ -177,7 +207,7 @@ def eval_lab(case, tier):
         aux = {}
         for dt in itertools.product(range(4), repeat=4):
             for k in range(4):
-                stub.DD[trans[k][0], trans[k][1], :] = DIP4[dt[k]]
+                stub.DD[trans[k][0], trans[k][1], :] = ds * DIP4[dt[k]]
             lp = liouville_pathway("R", 0, aggregate=stub, order=3, pname="stub")
             for k in range(4):
                 lp.add_transition(trans[k], sides[k])
@@ -187,13 +217,13 @@ def eval_lab(case, tier):
             nev += 1
             got[dt] = lp.pref
             aux[dt] = numpy.asarray(lp.F4n).tolist()
-        exp = sref * STUB_RHO0 * STUB_EVF * tab
-        scale = STUB_RHO0 * abs(STUB_EVF) * numpy.einsum("i,j,k,l->ijkl", dnorm, dnorm, dnorm,
-                                                         dnorm)
+        exp = sref * STUB_RHO0 * STUB_EVF * tab * ds ** 4
+        scale = STUB_RHO0 * abs(STUB_EVF) * ds ** 4 * numpy.einsum("i,j,k,l->ijkl", dnorm, dnorm,
+                                                                   dnorm, dnorm)
         err = numpy.abs(got - exp) / scale
         err = numpy.where(numpy.isfinite(err), err, numpy.inf)
         worst = max(worst, float(numpy.max(err)))
-        fin = numpy.where(numpy.isfinite(got), got, 0.0)
+        fin = numpy.where(numpy.isfinite(got), got, 0.0) / ds ** 4
         obs[0] += float(abs(numpy.sum(fin)))
         obs[1] += float(numpy.sum(numpy.abs(fin)))
         if not numpy.max(err) <= TOL:
@@ -202,12 +232,16 @@ def eval_lab(case, tier):
             dt = tuple(int(i) for i in numpy.unravel_index(int(numpy.argmax(err)), err.shape))
             key = ("pref/lab/sign-flipped/sides=%s" % stag if flipped
                    else "pref/lab/value/pol=%s" % pol_class(name4))
+            if ds != 1.0:
+                if key in viol:         # already reported for the unscaled dipoles
+                    continue
+                key += SCALED_ONLY
             if key not in viol:
-                viol[key] = (key, "polarisations %s, dipoles %s, sides %s: pref=%r, SO(3) "
-                             "average*sign*rho0*evf=%r (rel.dev %.3g)"
-                             % (name4, list(dt), stag, complex(got[dt]), complex(exp[dt]),
+                viol[key] = (key, "polarisations %s, dipoles %s (all x%g), sides %s: pref=%r, "
+                             "SO(3) average*sign*rho0*evf=%r (rel.dev %.3g)"
+                             % (name4, list(dt), ds, stag, complex(got[dt]), complex(exp[dt]),
                                 float(err[dt])),
-                             {"dipoles": list(dt), "sides": list(sides),
+                             {"dipoles": list(dt), "sides": list(sides), "dipole_scale": ds,
                               "F4eM4": numpy.asarray(lab.F4eM4).tolist(), "F4n": aux[dt]})
     return {"nontrivial": bool(numpy.max(numpy.abs(tab)) > 1e-9),
             "outcome": ["lab", name4, round(obs[0], 9), round(obs[1], 9)],
@@ -402,6 +436,18 @@ def esa_dephasing_signature(agg, pws, spec):
     return "esa-dephasing=other"
 
 
+def scaled(dips, s):
+    """All dipoles times the common factor s (s = 1.0 reproduces the numbers exactly)."""
+    return [[s * float(x) for x in d] for d in dips]
+
+
+def census_diff(cen, ref):
+    """Deterministic tag of a census difference: which pathway types are missing / extra."""
+    missing = sorted(t for t in ref if cen.get(t, 0) < ref[t])
+    extra = sorted(t for t in cen if cen[t] > ref.get(t, 0))
+    return ("missing=" + ",".join(missing)) if missing else ("extra=" + ",".join(extra))
+
+
 def monomer_spec(spec, m):
     return {"n": 1, "E": [spec["E"][m]], "dip": [list(spec["dip"][m])], "J": [[0.0]],
             "lw": [spec["lw"][m]], "dyn": spec["dyn"] if spec["dyn"] != "relax" else "free",
@@ -550,26 +596,126 @@ def eval_sys(case, tier):
 
     # ---------------- uncoupled aggregate == sum of monomers -----------------------------------
     nmono = 0
-    if uncoupled:
-        tot = {b: {s: 0.0 for s in SIGNALS} for b in bases}
-        for m in range(n):
-            mb = Bench(monomer_spec(spec, m))
-            magg = mb.system()
+    monob = [Bench(monomer_spec(spec, m)) for m in range(n)] if uncoupled else []
+
+    def additivity(s, agg_s, base_s, pws_s, addf):
+        """J = 0: the response of the aggregate (all dipoles x s) == sum over its molecules built
+        alone with the same (scaled) dipole."""
+        tot = {b: {sg: 0.0 for sg in SIGNALS} for b in bases}
+        for m, mb in enumerate(monob):
+            magg = mb.system(dip=scaled([spec["dip"][m]], s))
             for b in bases:
                 r, _ = mb.response(magg, labs[b])
-                for s in SIGNALS:
-                    tot[b][s] = tot[b][s] + r[s]
-            nmono += mb.ncalc
+                for sg in SIGNALS:
+                    tot[b][sg] = tot[b][sg] + r[sg]
         for b in bases:
-            d, s = sig_dev(base[b], tot[b])
+            d, sg = sig_dev(base_s[b], tot[b])
             worst("uncoupled" if not (shape == "Lorentzian" and case["lw"] == "mixed")
                   else "uncoupled-lorentzian-unequal", d)
             if not d <= TOL:
-                sig = esa_dephasing_signature(agg, pws, spec) if shape == "Lorentzian" else None
-                add("uncoupled/%s/%s%s" % (shape, lwtag, "/" + sig if sig else ""),
-                    "%s signal of the uncoupled %d-mer differs from the sum over its molecules "
-                    "built separately by %.3g (relative; polarisations %s, line widths %s 1/cm)"
-                    % (s, n, d, b, spec["lw"]), {"polarisations": b, "failing": s})
+                sig = (esa_dephasing_signature(agg_s, pws_s, spec) if shape == "Lorentzian"
+                       else None)
+                addf("uncoupled/%s/%s%s" % (shape, lwtag, "/" + sig if sig else ""),
+                     "%s signal of the uncoupled %d-mer differs from the sum over its molecules "
+                     "built separately by %.3g (relative; polarisations %s, line widths %s 1/cm%s)"
+                     % (sg, n, d, b, spec["lw"], "" if s == 1.0 else ", all dipoles x%g" % s),
+                     {"polarisations": b, "failing": sg, "dipole_scale": s})
+
+    if uncoupled:
+        additivity(1.0, agg, base, pws, add)
+
+    # ---------------- dipole-scale dimension -----------------------------------------------------
+    # every s != 1: the system with ALL dipoles x s goes through the pipeline for every base
+    # polarisation setting; cross-scale oracles (s^4 per signal, pathway census) against s = 1 and
+    # the reference oracles pref (prefactors as the pipeline made them), total (sum, re-read,
+    # ledger), uncoupled on the scaled system itself; thorough: also the rotation clauses with
+    # the generic rotation
+    cen1 = census(pws)
+    sdigest = []
+    for s in DIPSCALES[tier]:
+        if s == 1.0:
+            continue
+
+        def add_s(key, what, det=None):
+            if key not in viol:             # else: already reported for the unscaled dipoles
+                add(key + SCALED_ONLY, what, det)
+
+        aggs = bench.system(dip=scaled(spec["dip"], s))
+        res = {}
+        for b in bases:
+            res[b] = bench.response(aggs, labs[b])
+        base_s = {b: res[b][0] for b in bases}
+        sdigest.append(round(float(numpy.max(numpy.abs(base_s[bases[0]]["total"]))) / s ** 4, 6))
+        for b in bases:
+            r, p = res[b]
+            where = "all dipoles x%g, polarisations %s" % (s, b)
+            d, parts = sig_dev(r, base[b], factor=s ** 4)
+            worst("scale-s4", d)
+            if not d <= TOL:
+                add("scale-s4/%s" % parts, "%s signal of the system with all dipoles x%g differs "
+                    "from %g x the original by %.3g (relative; polarisations %s)"
+                    % (parts, s, s ** 4, d, b), {"dipole_scale": s, "polarisations": b})
+            cen = census(p)
+            if cen != cen1:
+                add("scale-census/%s" % census_diff(cen, cen1),
+                    "generated pathways %s, with the original dipoles %s; %s"
+                    % (sorted(cen.items()), sorted(cen1.items()), where),
+                    {"dipole_scale": s, "polarisations": b})
+            if p:
+                rel, got, ref = pref_as_made(aggs, p, polvec(b))
+                worst("scale-pref", numpy.max(rel))
+                if not numpy.max(rel) <= TOL:
+                    ip = int(numpy.argmax(rel))
+                    add_s("pref/pathway/%s/value" % p[ip].pathway_name,
+                          "pathway #%d %s transitions %s: pref=%r but sign*rho0*evf*<SO(3) "
+                          "average>=%r (rel.dev %.3g); %s"
+                          % (ip, p[ip].pathway_name, p[ip].transitions.tolist(),
+                             complex(got[ip]), complex(ref[ip]), float(rel[ip]), where),
+                          {"dipole_scale": s, "polarisations": b})
+            sc = max(float(numpy.max(numpy.abs(r["REPH"]))),
+                     float(numpy.max(numpy.abs(r["NONR"]))), 1e-300)
+            if r.get("_reread", 0.0) > TOL * sc:
+                add_s("total/reread-differs/%s" % shape,
+                      "reading total, REPH, total, NONR again from the same response object "
+                      "differs from the first reads by %.3g; %s" % (r["_reread"] / sc, where),
+                      None)
+            d = float(numpy.max(numpy.abs(r["total"] - (r["REPH"] + r["NONR"])))) / sc
+            worst("total-sum", d)
+            if not d <= TOL:
+                add_s("total/sum/%s" % shape, "total differs from REPH+NONR by %.3g (relative); "
+                      "%s" % (d, where), None)
+        r, p = res[bases[0]]
+        led = {"R": 0.0, "NR": 0.0}
+        for q in p:
+            led[q.pathway_type] = led[q.pathway_type] + bench.calc.calculate_pathway(q,
+                                                                                    shape=shape)
+        for typ, name in (("R", "REPH"), ("NR", "NONR")):
+            sc = max(float(numpy.max(numpy.abs(r[name]))), 1e-300)
+            d = float(numpy.max(numpy.abs(r[name] - led[typ]))) / sc
+            worst("total-ledger", d)
+            if not d <= TOL:
+                add_s("total/ledger/%s/%s" % (name, shape), "%s part differs from the sum over "
+                      "the generated %s-type pathways by %.3g (relative; all dipoles x%g)"
+                      % (name, typ, d, s), None)
+        if uncoupled:
+            additivity(s, aggs, base_s, res[bases[0]][1], add_s)
+        for rot in ROTS_SCALED[tier]:
+            aggr = bench.system(dip=[list(numpy.asarray(rot).dot(numpy.array(dd)))
+                                     for dd in scaled(spec["dip"], s)])
+            for b in bases:
+                labr = make_lab(polvec(b).dot(numpy.asarray(rot).T))
+                for clause, r in (("rot-pol", bench.response(aggs, labr)[0]),
+                                  ("rot-dip", bench.response(aggr, labs[b])[0])):
+                    d, sg = sig_dev(r, base_s[b])
+                    worst(clause, d)
+                    if not d <= TOL:
+                        add_s("%s/%s/pol=%s" % (clause, sg, pol_class(b)),
+                              "%s signal changes by %.3g (relative) under the generic common "
+                              "rotation of %s (all dipoles x%g, polarisations %s)"
+                              % (sg, d, "the polarisations" if clause == "rot-pol"
+                                 else "all dipoles", s, b),
+                              {"rotation": numpy.asarray(rot).tolist(), "dipole_scale": s})
+    nmono = sum(mb.ncalc for mb in monob)
 
     r0 = base[bases[0]]
     nontrivial = bool(npw > 0 and float(numpy.max(numpy.abs(r0["total"]))) > 0.0
@@ -577,7 +723,7 @@ def eval_sys(case, tier):
     outcome = ["sys", n, case["en"], case["J"], case["topo"], case["lw"], case["t2"], shape,
                case["dyn"], sorted(ntypes.items()),
                [round(float(numpy.max(numpy.abs(r0[s]))), 6) for s in SIGNALS],
-               round(float(numpy.sum(numpy.abs(lib))), 6)]
+               round(float(numpy.sum(numpy.abs(lib))), 6), sdigest]
     return {"nontrivial": nontrivial, "outcome": outcome, "violations": list(viol.values()),
             "n": bench.ncalc + nmono + 625 * npw - 1,
             "info": {"dev": dev, "unbuildable": 0, "npw": npw}}
@@ -606,6 +752,8 @@ REUSE_POLS = ["XXYY", "XMDZ"]
 # polarisation setting; api `all`: calculate_all_system (whole t2 axis) for every setting
 REUSE_T2 = {"one": (0.0, 20.0), "all": (0.0, 10.0, 20.0)}
 REUSE_DEPTH = {"quick": 2, "thorough": 3}
+# history depth of the repetition with scaled dipoles (s != 1): all sequences of this length
+REUSE_DEPTH_SCALED = {"quick": 2, "thorough": 2}
 # the coupled trimer with two-exciton band (hundreds of pathways) only in thorough
 REUSE_NAMES = {"quick": [nm for nm, _ in REUSE_SYSTEMS if nm != "t2:J80"],
                "thorough": [nm for nm, _ in REUSE_SYSTEMS]}
@@ -624,12 +772,13 @@ class ReuseSystem:
     """One letter of the system alphabet: aggregate (built with the mult of the letter,
     diagonalised) and the evolution superoperator of its one-exciton block."""
 
-    def __init__(self, case, name):
+    def __init__(self, case, name, s=1.0, eUt=None):
         sites, J, _topo, mult = dict(REUSE_SYSTEMS)[name]
         self.name = name
         self.spec = reuse_spec(case, name)
-        self.eUt = Bench(self.spec).eUt
-        self.agg = build_aggregate(self.spec, mult)
+        # the evolution superoperator does not depend on the dipoles: shared between the scales
+        self.eUt = Bench(self.spec).eUt if eUt is None else eUt
+        self.agg = build_aggregate(self.spec, mult, dip=scaled(self.spec["dip"], s))
         self.agg.diagonalize()
         self.band = bool(mult >= 2 and len(sites) >= 2)
         self.tag = "two-exciton-band" if self.band else "no-two-exciton-band"
@@ -704,11 +853,12 @@ def eval_reuse(case, tier):
     t2s = REUSE_T2[api]
     names = list(REUSE_NAMES[tier])
     ops = names + [BOOT]
-    systems = {nm: ReuseSystem(case, nm) for nm in names}
     labs = {b: make_lab(polvec(b)) for b in REUSE_POLS}
     lwtag = "equal-widths" if case["lw"] != "mixed" else "unequal-widths"
     viol, dev = {}, {}
-    ncalc = 0
+    count = {"calc": 0, "hist": 0, "changes": 0}
+    checked = set()
+    digest = []
 
     def add(key, what, det=None):
         if key not in viol:
@@ -718,77 +868,115 @@ def eval_reuse(case, tier):
         x = float(x) if numpy.isfinite(x) else 1e300
         dev[name] = max(dev.get(name, 0.0), x)
 
-    # reference of the differential oracle: a fresh calculator for every single calculation
-    fresh = {}
-    for nm in names:
-        S = systems[nm]
-        for b in REUSE_POLS:
-            for t2 in t2s:
-                pw = {}
-                tw = new_calculator(shape).calculate_one_system(t2, S.agg, S.eUt, labs[b],
-                                                                pways=pw)
-                ncalc += 1
-                fresh[(nm, b, t2)] = (read_response(tw), census(pw[str(t2)]))
+    # the system alphabet at every dipole scale (s = 1 first)
+    systems = {1.0: {nm: ReuseSystem(case, nm) for nm in names}}
+    for s in DIPSCALES[tier]:
+        if s != 1.0:
+            systems[s] = {nm: ReuseSystem(case, nm, s, eUt=systems[1.0][nm].eUt)
+                          for nm in names}
+    fresh = {}              # (s, name, pol, t2) -> (signals, census) of a fresh calculator
+    fresh_all = {}          # (s, name, pol) -> {t2: signals} of a fresh calculator, api `all`
 
-    def check(full, k, calc, res):
+    def fresh_all_api(s, nm, b):
+        """Lazily (only to classify a failure): a fresh calculator used through
+        calculate_all_system for system nm at scale s."""
+        if (s, nm, b) not in fresh_all:
+            S = systems[s][nm]
+            cont = new_calculator(shape).calculate_all_system(S.agg, S.eUt, labs[b])
+            fresh_all[(s, nm, b)] = {t2: read_response(cont.get_spectrum(t2))
+                                     for t2 in REUSE_T2["all"]}
+        return fresh_all[(s, nm, b)]
+
+    def own_screening(s, nm, b, t2, sig):
+        """A result of the api `all` at scale s != 1 that deviates from calculate_one_system:
+        True iff a FRESH calculator used through the same api at the same scale gives the same
+        result (so it is no effect of the history) while at s = 1 the api agrees with
+        calculate_one_system, i.e. the pathway screening of calculate_all_system depends on the
+        absolute size of the dipoles."""
+        if api != "all" or s == 1.0:
+            return False
+        d, _ = sig_dev(sig, fresh_all_api(s, nm, b)[t2])
+        if not d <= TOL:
+            return False
+        d, _ = sig_dev(fresh_all_api(1.0, nm, b)[t2], fresh[(1.0, nm, b, t2)][0])
+        return bool(d <= TOL)
+
+    def check(s, full, k, calc, res):
         op = full[k]
-        S = systems[op]
+        S = systems[s][op]
         prev = full[k - 1] if k > 0 else BOOT
         after = ("bootstrap" if prev == BOOT else
-                 "same-system" if prev == op else systems[prev].tag)
+                 "same-system" if prev == op else systems[s][prev].tag)
         hist = " -> ".join(full[:k + 1])
-        det = {"history": list(full[:k + 1])}
+        det = {"history": list(full[:k + 1]), "dipole_scale": s}
+
+        def addk(key, what):
+            if s == 1.0:
+                add(key, what, det)
+            elif key not in viol:           # else: already reported for the unscaled dipoles
+                add(key + SCALED_ONLY, what, det)
+
         for (b, t2), (sig, pws) in res.items():
-            where = "history %s (api %s), polarisations %s, t2=%g" % (hist, api, b, t2)
-            fsig, fcen = fresh[(op, b, t2)]
-            d, parts = sig_dev(sig, fsig)
-            worst("reuse-fresh", d)
-            if not d <= TOL:
-                add("reuse/%s/fresh-differs/now=%s/after=%s/%s" % (api, S.tag, after, parts),
-                    "%s signal of the last system differs by %.3g (relative) from the one a "
-                    "fresh calculator gives for it; %s" % (parts, d, where), det)
+            where = "history %s (api %s%s), polarisations %s, t2=%g" % (
+                hist, api, "" if s == 1.0 else ", all dipoles x%g" % s, b, t2)
+            fsig, fcen = fresh[(s, op, b, t2)]
             sc = max(float(numpy.max(numpy.abs(sig["REPH"]))),
                      float(numpy.max(numpy.abs(sig["NONR"]))), 1e-300)
             if sig["_reread"] > TOL * sc:
-                add("reuse/%s/total/reread-differs/%s" % (api, shape),
-                    "reading total, REPH, total, NONR again from the same response object "
-                    "differs from the first reads by %.3g; %s" % (sig["_reread"] / sc, where),
-                    det)
+                addk("reuse/%s/total/reread-differs/%s" % (api, shape),
+                     "reading total, REPH, total, NONR again from the same response object "
+                     "differs from the first reads by %.3g; %s" % (sig["_reread"] / sc, where))
             d = float(numpy.max(numpy.abs(sig["total"] - (sig["REPH"] + sig["NONR"])))) / sc
             worst("reuse-total-sum", d)
             if not d <= TOL:
-                add("reuse/%s/total/sum/%s" % (api, shape),
-                    "total differs from REPH+NONR by %.3g (relative); %s" % (d, where), det)
+                addk("reuse/%s/total/sum/%s" % (api, shape),
+                     "total differs from REPH+NONR by %.3g (relative); %s" % (d, where))
+            dfr, pfr = sig_dev(sig, fsig)
+            worst("reuse-fresh", dfr)
+            cen = census(pws) if pws is not None else None
+            cen_bad = cen is not None and cen != fcen
+            dun, pun = 0.0, None
             if S.parts is not None:
-                tot = {s: sum(fresh[(m, b, t2)][0][s] for m in S.parts) for s in SIGNALS}
-                d, parts = sig_dev(sig, tot)
-                worst("reuse-uncoupled", d)
-                if not d <= TOL:
-                    add("reuse/%s/uncoupled/%s/%s/after=%s" % (api, shape, lwtag, after),
-                        "%s signal of the uncoupled aggregate differs by %.3g (relative) from "
-                        "the sum over its molecules (each with a fresh calculator); %s"
-                        % (parts, d, where), det)
+                tot = {sg: sum(fresh[(s, m, b, t2)][0][sg] for m in S.parts) for sg in SIGNALS}
+                dun, pun = sig_dev(sig, tot)
+                worst("reuse-uncoupled", dun)
+            if (not dfr <= TOL or cen_bad) and own_screening(s, op, b, t2, sig):
+                # specific key; the fresh / census / additivity deviations of this result are
+                # consequences of the reduced pathway set and are not reported again
+                add("reuse/all/pathway-screening-depends-on-dipole-scale",
+                    "calculate_all_system of a fresh calculator generates for the system with all "
+                    "dipoles x%g a different set of pathways (%s) than calculate_one_system (%s), "
+                    "while both agree for the original dipoles: %s signal deviates by %.3g "
+                    "(relative); %s"
+                    % (s, sorted(cen.items()) if cen is not None else "not recorded",
+                       sorted(fcen.items()), pfr, dfr, where), det)
+            else:
+                if not dfr <= TOL:
+                    addk("reuse/%s/fresh-differs/now=%s/after=%s/%s" % (api, S.tag, after, pfr),
+                         "%s signal of the last system differs by %.3g (relative) from the one a "
+                         "fresh calculator gives for it; %s" % (pfr, dfr, where))
+                if not dun <= TOL:
+                    addk("reuse/%s/uncoupled/%s/%s/after=%s" % (api, shape, lwtag, after),
+                         "%s signal of the uncoupled aggregate differs by %.3g (relative) from "
+                         "the sum over its molecules (each with a fresh calculator); %s"
+                         % (pun, dun, where))
+                if cen_bad:
+                    addk("reuse/%s/pathway-census/now=%s/after=%s/%s"
+                         % (api, S.tag, after, census_diff(cen, fcen)),
+                         "generated pathways %s, a fresh calculator generates %s; %s"
+                         % (sorted(cen.items()), sorted(fcen.items()), where))
             if pws is None:
                 continue
-            cen = census(pws)
-            if cen != fcen:
-                missing = sorted(t for t in fcen if cen.get(t, 0) < fcen[t])
-                extra = sorted(t for t in cen if cen[t] > fcen.get(t, 0))
-                add("reuse/%s/pathway-census/now=%s/after=%s/%s"
-                    % (api, S.tag, after, ("missing=" + ",".join(missing)) if missing
-                       else ("extra=" + ",".join(extra))),
-                    "generated pathways %s, a fresh calculator generates %s; %s"
-                    % (sorted(cen.items()), sorted(fcen.items()), where), det)
             if pws:
                 rel, got, ref = pref_as_made(S.agg, pws, polvec(b))
                 worst("reuse-pref", numpy.max(rel))
                 if not numpy.max(rel) <= TOL:
                     ip = int(numpy.argmax(rel))
-                    add("reuse/%s/pref/%s/value" % (api, pws[ip].pathway_name),
-                        "pathway #%d %s transitions %s: pref=%r but sign*rho0*evf*<SO(3) "
-                        "average>=%r (rel.dev %.3g); %s"
-                        % (ip, pws[ip].pathway_name, pws[ip].transitions.tolist(),
-                           complex(got[ip]), complex(ref[ip]), float(rel[ip]), where), det)
+                    addk("reuse/%s/pref/%s/value" % (api, pws[ip].pathway_name),
+                         "pathway #%d %s transitions %s: pref=%r but sign*rho0*evf*<SO(3) "
+                         "average>=%r (rel.dev %.3g); %s"
+                         % (ip, pws[ip].pathway_name, pws[ip].transitions.tolist(),
+                            complex(got[ip]), complex(ref[ip]), float(rel[ip]), where))
             led = {"R": 0.0, "NR": 0.0}
             for p in pws:
                 led[p.pathway_type] = led[p.pathway_type] + calc.calculate_pathway(p, shape=shape)
@@ -797,40 +985,74 @@ def eval_reuse(case, tier):
                 d = float(numpy.max(numpy.abs(sig[name] - led[typ]))) / sc1
                 worst("reuse-ledger", d)
                 if not d <= TOL:
-                    add("reuse/%s/total/ledger/%s/%s" % (api, name, shape),
-                        "%s part differs from the sum over the generated %s-type pathways by "
-                        "%.3g (relative); %s" % (name, typ, d, where), det)
+                    addk("reuse/%s/total/ledger/%s/%s" % (api, name, shape),
+                         "%s part differs from the sum over the generated %s-type pathways by "
+                         "%.3g (relative); %s" % (name, typ, d, where))
 
-    checked = set()
-    nchanges = 0
-    digest = 0.0
-    nhist = 0
-    for rest in itertools.product(ops, repeat=depth - 1):
-        full = (first,) + rest
-        nhist += 1
-        calc = new_calculator(shape)
-        for k, op in enumerate(full):
-            if op == BOOT:
-                bootstrap_calculator(calc, shape)
-                continue
-            res = reuse_step(calc, systems[op], labs, api, t2s)
-            ncalc += len(res)
-            if full[:k + 1] in checked:         # same prefix, same (deterministic) result
-                continue
-            checked.add(full[:k + 1])
-            check(full, k, calc, res)
-            if k > 0 and full[k - 1] != BOOT and systems[full[k - 1]].band != systems[op].band:
-                nchanges += 1
-            digest += sum(float(numpy.max(numpy.abs(s["total"]))) for s, _ in res.values())
+    for s in DIPSCALES[tier]:
+        sysm = systems[s]
+        # reference of the differential oracle: a fresh calculator for every single calculation
+        for nm in names:
+            S = sysm[nm]
+            for b in REUSE_POLS:
+                for t2 in t2s:
+                    pw = {}
+                    tw = new_calculator(shape).calculate_one_system(t2, S.agg, S.eUt, labs[b],
+                                                                    pways=pw)
+                    count["calc"] += 1
+                    fresh[(s, nm, b, t2)] = (read_response(tw), census(pw[str(t2)]))
+        # cross-scale oracles on every system of the alphabet (fresh calculators)
+        if s != 1.0:
+            for nm in names:
+                for b in REUSE_POLS:
+                    for t2 in t2s:
+                        sig, cen = fresh[(s, nm, b, t2)]
+                        sig1, cen1 = fresh[(1.0, nm, b, t2)]
+                        where = "system %s, polarisations %s, t2=%g" % (nm, b, t2)
+                        d, parts = sig_dev(sig, sig1, factor=s ** 4)
+                        worst("reuse-scale-s4", d)
+                        if not d <= TOL:
+                            add("reuse/scale-s4/%s/%s" % (sysm[nm].tag, parts),
+                                "%s signal of the system with all dipoles x%g differs from %g x "
+                                "the original by %.3g (relative; fresh calculators); %s"
+                                % (parts, s, s ** 4, d, where),
+                                {"system": nm, "dipole_scale": s})
+                        if cen != cen1:
+                            add("reuse/scale-census/%s/%s" % (sysm[nm].tag,
+                                                              census_diff(cen, cen1)),
+                                "generated pathways %s with all dipoles x%g, %s with the original "
+                                "dipoles; %s" % (sorted(cen.items()), s, sorted(cen1.items()),
+                                                 where), {"system": nm, "dipole_scale": s})
+        # all histories at this scale
+        dg = 0.0
+        dep = depth if s == 1.0 else min(depth, REUSE_DEPTH_SCALED[tier])
+        for rest in itertools.product(ops, repeat=dep - 1):
+            full = (first,) + rest
+            count["hist"] += 1
+            calc = new_calculator(shape)
+            for k, op in enumerate(full):
+                if op == BOOT:
+                    bootstrap_calculator(calc, shape)
+                    continue
+                res = reuse_step(calc, sysm[op], labs, api, t2s)
+                count["calc"] += len(res)
+                if (s, full[:k + 1]) in checked:    # same prefix, same (deterministic) result
+                    continue
+                checked.add((s, full[:k + 1]))
+                check(s, full, k, calc, res)
+                if k > 0 and full[k - 1] != BOOT and sysm[full[k - 1]].band != sysm[op].band:
+                    count["changes"] += 1
+                dg += sum(float(numpy.max(numpy.abs(r["total"]))) for r, _ in res.values())
+        digest.append(round(dg / s ** 4, 6))
 
-    fmax = [float(numpy.max(numpy.abs(fresh[(nm, REUSE_POLS[0], t2s[-1])][0]["total"])))
-            for nm in names]
-    nontrivial = bool(min(fmax) > 0.0 and nchanges > 0)
+    fmax = [float(numpy.max(numpy.abs(fresh[(s, nm, REUSE_POLS[0], t2s[-1])][0]["total"])))
+            / s ** 4 for s in DIPSCALES[tier] for nm in names]
+    nontrivial = bool(min(fmax) > 0.0 and count["changes"] > 0)
     outcome = ["reuse", shape, api, case["lw"], case["dyn"], case["en"], first, depth,
-               round(digest, 6), [round(x, 6) for x in fmax]]
+               digest, [round(x, 6) for x in fmax]]
     return {"nontrivial": nontrivial, "outcome": outcome, "violations": list(viol.values()),
-            "n": ncalc - 1,
-            "info": {"dev": dev, "unbuildable": 0, "npw": 0, "histories": nhist,
+            "n": count["calc"] - 1,
+            "info": {"dev": dev, "unbuildable": 0, "npw": 0, "histories": count["hist"],
                      "steps_checked": len(checked)}}
 
 
@@ -904,7 +1126,10 @@ def run(run):
                 "operation on one bootstrapped calculator (inside each: ALL continuations up to "
                 "the history depth over the alphabet {use for system s} + {bootstrap again}, every "
                 "use = all base polarisations x waiting times, every result compared with a fresh "
-                "calculator and with the reference oracles); non-trivial = lab: some average of the point exceeds 1e-9 in magnitude; sys: pathways of both "
+                "calculator and with the reference oracles); dipole-scale dimension: inside "
+                "every sys point and every reuse case ALL dipoles of every system x every s of "
+                "the tier, with the cross-scale oracles s^4 / pathway census and the reference "
+                "oracles on the scaled systems (lab: thorough only); non-trivial = lab: some average of the point exceeds 1e-9 in magnitude; sys: pathways of both "
                 "excited-state-absorption types were generated and the total signal is non-zero; "
                 "reuse: some history of the case uses the calculator for a system with two-exciton "
                 "band right after one without (or the reverse) and all fresh signals are non-zero")
@@ -931,8 +1156,16 @@ def run(run):
         "reuse histories: the same aggregate / evolution-superoperator objects of a system are "
         "used by the shared and by the fresh calculators; re-bootstrapping uses the arguments of "
         "the first bootstrap; a calculator is not shared between line shapes or time axes")
+    run.assumptions.append(
+        "dipole-scale dimension: the factor multiplies the molecular transition dipoles before "
+        "the aggregate is built; within one reuse history all systems carry the same factor; "
+        "line widths, energies, couplings and dynamics are not scaled")
     rots = rotations(run.tier)
-    run.bounds = {"reuse: history depth": REUSE_DEPTH[run.tier],
+    run.bounds = {"dipole scales (sys, reuse)": DIPSCALES[run.tier],
+                  "dipole scales (lab)": LAB_SCALES[run.tier],
+                  "rotations on scaled systems": len(ROTS_SCALED[run.tier]),
+                  "reuse: history depth": REUSE_DEPTH[run.tier],
+                  "reuse: history depth with scaled dipoles": REUSE_DEPTH_SCALED[run.tier],
                   "reuse: operations": REUSE_NAMES[run.tier] + [BOOT],
                   "reuse: polarisations": REUSE_POLS, "reuse: waiting times": REUSE_T2,
                   "polarisation alphabet": POLN, "dipole alphabet (lab)": ISO.DIPOLES4,
